@@ -218,7 +218,9 @@ func (c *LocalReusableWorkflowCache) FindMetadata(spec string) (*ReusableWorkflo
 	src, err := os.ReadFile(file)
 	if err != nil {
 		c.writeCache(spec, nil) // Remember the workflow file was not found
-		return nil, fmt.Errorf("could not read reusable workflow file for %q: %w", spec, err)
+		// The error contains the file path as-is
+		msg := strings.ReplaceAll(err.Error(), "\n", " ")
+		return nil, fmt.Errorf("could not read reusable workflow file for %q: %s", spec, msg)
 	}
 
 	m, err := parseReusableWorkflowMetadata(src)
